@@ -309,6 +309,16 @@ func VerifC17Accept() {
 	verifrt.Assert((err == nil) == want, "unmarshal-accepts-exactly-valid-documents")
 	if err == nil {
 		verifrt.Assert(v != nil, "unmarshal-returns-a-value")
+		// the decoded value marshals to a document that decodes to the same value
+		// (kind by kind: an empty array stays an array, null stays undefined)
+		m, merr := Marshal(v)
+		verifrt.Assert(merr == nil && refValid(m), "decoded-value-marshals-to-valid-json")
+		// (not for renderings of symbolic numbers, which the engine represents
+		// by an opaque placeholder that the scanner cannot read back)
+		if merr == nil && !bytes.Contains(m, []byte("\xe2\x9f\xa6")) {
+			v2, err2 := Unmarshal(m)
+			verifrt.AssertMsg(err2 == nil && verifSameJSON(v, v2) && verifSameJSON(v2, v), "unmarshal-marshal-unmarshal-is-stable", string(m))
+		}
 		// Compact and Indent keep a valid document valid
 		var cb, ib bytes.Buffer
 		verifrt.Assert(compact(&cb, data, false) == nil && refValid(cb.Bytes()), "compact-preserves-validity")
@@ -518,7 +528,8 @@ func verifSameJSON(a, b ugo.Object) bool {
 		return string(x) == string(y) || !utf8.ValidString(string(x))
 	case ugo.Array:
 		y, ok := b.(ugo.Array)
-		if !ok || len(x) != len(y) {
+		if !ok || len(x) != len(y) || (x == nil) != (y == nil) {
+			// (a nil array marshals as null, an empty one as [])
 			return false
 		}
 		for i := range x {
@@ -529,7 +540,7 @@ func verifSameJSON(a, b ugo.Object) bool {
 		return true
 	case ugo.Map:
 		y, ok := b.(ugo.Map)
-		if !ok || len(x) != len(y) {
+		if !ok || len(x) != len(y) || (x == nil) != (y == nil) {
 			return false
 		}
 		for k, v := range x {
